@@ -126,6 +126,22 @@ func (mod *Module) findIdentityBase(baseStr string) (*resolvedIdentity, []error)
 	return &base, errs
 }
 
+// hoistIdentities adds the identities of the submodules that mod includes,
+// directly or through its submodules, to the identity dictionary.
+func (ms *Modules) hoistIdentities(mod *Module, seen map[*Module]bool) {
+	for _, in := range mod.Include {
+		if in.Module == nil || seen[in.Module] {
+			continue
+		}
+		seen[in.Module] = true
+		for _, i := range in.Module.Identities() {
+			keyName, r := newResolvedIdentity(in.Module, i)
+			ms.typeDict.identities.dict[keyName] = *r
+		}
+		ms.hoistIdentities(in.Module, seen)
+	}
+}
+
 func (ms *Modules) resolveIdentities() []error {
 	defer ms.typeDict.identities.mu.Unlock()
 	ms.typeDict.identities.mu.Lock()
@@ -145,15 +161,7 @@ func (ms *Modules) resolveIdentities() []error {
 		// Hoist up all identities in our included submodules.
 		// We could just do a range on ms.SubModules, but that
 		// might process a submodule that no module included.
-		for _, in := range mod.Include {
-			if in.Module == nil {
-				continue
-			}
-			for _, i := range in.Module.Identities() {
-				keyName, r := newResolvedIdentity(in.Module, i)
-				ms.typeDict.identities.dict[keyName] = *r
-			}
-		}
+		ms.hoistIdentities(mod, map[*Module]bool{})
 	}
 
 	// Now, we want to create for all identities a view of all of their children.
